@@ -20,7 +20,10 @@
      - HandleConfigurationInformation measures the strings through a scratch buffer (GetVarStr reports no size for a null buffer) and
        InitConfigurationInformation recomputes the field pointers also when it re-uses the buffer
      - ParseN2kPGN126996 refuses payloads shorter than the 134 bytes of product information
-     - the constructor of tInternalDevice initialises LastMessageTime (it was read uninitialised for a placeholder entry). *)
+     - the constructor of tInternalDevice initialises LastMessageTime (it was read uninitialised for a placeholder entry).
+   Modelled as it is, not repaired: the request pacing compares against stored times in which 0 means "never" (finding D-20 of C13: the
+   behaviour depends on the clock origin), and a device displaced from its address is parked in the first free slot of Sources[] as if
+   it had that address (known finding "parked-device" of C18). *)
 From Coq Require Import ZArith List Bool.
 From N2kV Require Import Base.Res Base.ListAux Model.TextDefs.
 Import ListNotations ResNotations.
